@@ -89,6 +89,25 @@ def run(pid, tier):
         if not confirmed and not kf.get('playback_attempted', True):
             # same defect seen through another instantiation; counterexample extraction was capped
             out.violation('kani::%s::%s' % (h, '+'.join(kf['failed_checks'])[:120]), 'kani', kf['raw'])
+        elif not confirmed and not kf['failed_checks'] and not kf['playback']:
+            # Kani produced no verdict on the obligations of this harness (CBMC crashed / ran out of memory / gave no named failing
+            # check): fall back to the native runner of the same harness over a small alphabet (bounded)
+            found = None
+            for width, alpha in ((6, '0,1,2,255'), (9, '0,1,2'), (12, '0,1')):
+                try:
+                    rr = kani.native_exhaust(unit['binary'], h, ';'.join([alpha] * width), timeout=300)
+                except common.Inconclusive:
+                    continue
+                if rr['failures']:
+                    found = rr['failures'][0]
+                    break
+            if found:
+                rp = kani.native_replay(unit['binary'], h, found['input'])
+                out.violation('native::%s::%s' % (h, found['obligation']), 'native enumeration (Kani gave no verdict for this harness)', kf['raw'],
+                              failing_input={'harness': h, 'bytes': found['input'], 'failed_on_real_code': rp['failed']}, replay_transcript=rp['stdout'])
+            else:
+                out.proof_lost.append('kani gave no verdict for harness %s (tool failure: %s); the native runner of the same harness found no failing input over '
+                                      'small alphabets (bounded)' % (h, kf['raw'].strip().split('\n')[0][:120]))
         elif not confirmed:
             out.inconclusive.append('kani harness %s failed (%s) but no counterexample replays on the real code: treated as a tool artefact'
                                     % (h, kf['failed_checks']))
